@@ -142,6 +142,10 @@ def _worker_env(outdir, run, fds):
     # ~600 CLI processes recompiles all of PSyclone (3-5 x slower start-up)
     env["PYTHONPYCACHEPREFIX"] = PYC
     env["PYTHONPATH"] = SITE
+    if os.path.realpath(REPO) != "/repo":
+        # a scratch worktree selected with VERIF_REPO: its sources must win
+        # over the installed (editable) /repo
+        env["PYTHONPATH"] = SITE + os.pathsep + os.path.join(REPO, "src")
     env["VF_C29_FDS"] = "%d,%d" % fds
     env["VF_C29_RUN"] = str(run)
     env["VF_C29_OUTDIR"] = outdir
